@@ -286,8 +286,17 @@ func drive(args []string) int {
 		if isExplained(explained, sig) {
 			continue
 		}
-		if newViol >= 8 || time.Now().After(triageDeadline) {
+		if k := matchKnown(ks, bySig[sig][0].Prop, sig); k == nil && (newViol >= 8 || time.Now().After(triageDeadline)) {
+			// no time left to minimise and re-verify: the raw recording is the replay file
 			fmt.Printf("additional unminimised violation signature: %s\n", sig)
+			if newViol < 40 {
+				raw := bySig[sig][0]
+				path := filepath.Join(*verif, "replays", fmt.Sprintf("%s-%d-raw%d.json", raw.Prop, seed, newViol))
+				b, _ := json.MarshalIndent(raw, "", "  ")
+				os.WriteFile(path, b, 0o644)
+				fmt.Printf("VIOLATION property=%s replay=%s\n", raw.Prop, path)
+			}
+			newViol++
 			exit = 1
 			continue
 		}
@@ -313,8 +322,15 @@ func drive(args []string) int {
 			// try the unminimised one
 			b, _ = json.MarshalIndent(v, "", "  ")
 			os.WriteFile(path, b, 0o644)
-			rc = exec.Command(self, "replay", "-file", path, "-quiet")
-			out, _ = rc.Output()
+			// (a race report also depends on what the detector still remembers of the first
+			// access: the unminimised recording gets three attempts)
+			for attempt := 0; attempt < 3; attempt++ {
+				rc = exec.Command(self, "replay", "-file", path, "-quiet")
+				out, _ = rc.Output()
+				if rc.ProcessState != nil && rc.ProcessState.ExitCode() == 1 {
+					break
+				}
+			}
 			if rc.ProcessState == nil || rc.ProcessState.ExitCode() != 1 {
 				fmt.Printf("INFRA: violation %s did not reproduce from its tape in a fresh process (%s)\n%s\n", sig, path, out)
 				if exit == 0 {
